@@ -2,6 +2,7 @@ import OapiVerif.Model.TypeMap
 import OapiVerif.Gen.C08
 import OapiVerif.Proofs.SchemaOrder
 import OapiVerif.Proofs.FieldTags
+import OapiVerif.Gen.FieldRules
 /-!
 C08 — Go types follow the documented schema mapping.
 
@@ -141,6 +142,24 @@ theorem C08_omitempty_rule (p : P) (hx : p.xOmitEmpty = none) :
   unfold omitEmpty shouldOmit
   rw [hx]
   cases p.nullable <;> cases p.required <;> cases p.readOnly <;> cases p.writeOnly <;> rfl
+
+/-- **The pointer rule as it stands in the source** (`Property.GoTypeDef`, translated by harness/boolrules.go into
+`Gen/FieldRules.lean` on every run) **is the documented one**: a pointer exactly for members that are optional, nullable,
+write-only, or read-only — a required read-only member only while `disable-required-readonly-as-pointer` is off — unless
+the optional pointer is skipped. All 128 assignments. -/
+theorem C08_pointer_rule_translated (skip required nullable readOnly writeOnly disableReqRO nullableType : Bool) :
+    Gen.FieldRules.pointerRule skip required nullable readOnly writeOnly disableReqRO nullableType =
+      (!skip && (!required || nullable || writeOnly || (readOnly && !(required && disableReqRO)))) := by
+  cases skip <;> cases required <;> cases nullable <;> cases readOnly <;> cases writeOnly <;> cases disableReqRO <;> rfl
+
+/-- **The omitempty rule as it stands in the source** (`GenFieldsFromProperties`, translated on every run) is the model's
+`omitEmpty` for a member without `x-omitempty` — hence, by `C08_omitempty_rule`, the documented rule under the default
+options. -/
+theorem C08_omitempty_rule_translated (skip : Bool) (o : Opts) (p : P) (hx : p.xOmitEmpty = none) :
+    Gen.FieldRules.omitEmptyRule skip p.required p.nullable p.readOnly p.writeOnly o.disableRequiredReadOnlyAsPointer o.nullableType =
+      omitEmpty o p := by
+  unfold Gen.FieldRules.omitEmptyRule omitEmpty shouldOmit
+  rw [hx]
 
 /-- non-vacuity: an optional member of a form body with two extra tags, one of which replaces the form tag -/
 example : render (fieldTags ⟨false, false⟩ ⟨w "id", false, false, false, false, true, none, none, [(w "validate", w "required"), (w "form", w "ID")]⟩) =
